@@ -69,6 +69,19 @@ def gen_stream():
     return True, ""
 
 
+def gen_mini():
+    """mini/disj.go, conj.go, conde.go -> coq/gen/MiniGen.v (the mini dialect of genmicro: combinators as functions from goal lists to goal terms)."""
+    os.makedirs(vc.BUILD, exist_ok=True)
+    binp = os.path.join(vc.BUILD, "genmicro")
+    rc, out = vc.run(["go", "build", "-o", binp, "./cmd/genmicro"], cwd=vc.HARNESS, timeout=600, env=vc.GOENV)
+    if rc != 0:
+        return False, "genmicro does not build: " + out[-1500:]
+    rc, out = vc.run([binp, "-mini", vc.REPO, os.path.join(vc.COQ, "gen")], cwd=vc.VERIF, timeout=120, env=vc.GOENV)
+    if rc != 0:
+        return False, "genmicro -mini: " + out[-1500:]
+    return True, ""
+
+
 def gen_tables():
     import gen_tables as gt
     return gt.generate(vc.REPO, os.path.join(vc.COQ, "gen"))
